@@ -25,6 +25,12 @@ type driver struct {
 	tables    map[ssa.Value]*drvTable                 // array alloc / global -> table
 	lastTable *drvTable                               // the table of the latest evalOverTable that needed one
 	saw       *drvTable                               // set when an evaluation needed "the current element" of a table and none was selected
+	appends   []drvAppend                             // the append sites the latest evaluations resolved list elements through
+}
+
+type drvAppend struct {
+	call *ssa.Call
+	env  *drvEnv
 }
 
 type drvLit struct {
@@ -435,6 +441,10 @@ func (d *driver) eval(v ssa.Value, e *drvEnv, depth int) symv {
 				}
 				return el
 			}
+			// an element of a list that was built from a table (one record appended per table entry, possibly filtered)
+			if el, ok := d.derivedElem(a.X, e, depth+1, map[ssa.Value]bool{}); ok {
+				return el
+			}
 			return unknown("indexed value")
 		case *ssa.FieldAddr:
 			// field of a table element addressed in place, or of a spilled copy of it
@@ -579,6 +589,113 @@ func (d *driver) eval(v ssa.Value, e *drvEnv, depth int) symv {
 	return unknown(fmt.Sprintf("%T", v))
 }
 
+// derivedElem: list is a slice assembled by appends (in this function, or in a cmd helper that returns it); the symbolic value of
+// "an element of it" is the value appended - evaluated in the environment of the function that appends, so that a record built from
+// the current entry of a table (`append(sel, target{lang: k.lang, path: outputs[k.key], gen: k.gen})`) resolves per table entry.
+func (d *driver) derivedElem(list ssa.Value, e *drvEnv, depth int, seen map[ssa.Value]bool) (symv, bool) {
+	if depth > 24 || seen[list] {
+		return symv{}, false
+	}
+	seen[list] = true
+	switch x := list.(type) {
+	case *ssa.Parameter:
+		if b, ok := e.params[x]; ok {
+			return d.derivedElem(b.v, b.e, depth+1, seen)
+		}
+		return symv{}, false
+	case *ssa.Slice:
+		return d.derivedElem(x.X, e, depth+1, seen)
+	case *ssa.ChangeType:
+		return d.derivedElem(x.X, e, depth+1, seen)
+	case *ssa.UnOp:
+		if al, ok := x.X.(*ssa.Alloc); ok && x.Op == token.MUL {
+			var res *symv
+			for _, ref := range *al.Referrers() {
+				if st, ok := ref.(*ssa.Store); ok && st.Addr == ssa.Value(al) {
+					if k, isC := st.Val.(*ssa.Const); isC && k.IsNil() {
+						continue
+					}
+					s, ok := d.derivedElem(st.Val, e, depth+1, seen)
+					if !ok {
+						continue
+					}
+					if res != nil && !sameSym(*res, s) {
+						return symv{}, false
+					}
+					res = &s
+				}
+			}
+			if res != nil {
+				return *res, true
+			}
+		}
+		return symv{}, false
+	case *ssa.Phi:
+		var res *symv
+		for _, ed := range x.Edges {
+			if k, isC := ed.(*ssa.Const); isC && k.IsNil() {
+				continue
+			}
+			s, ok := d.derivedElem(ed, e, depth+1, seen)
+			if !ok {
+				continue // the other edges of the accumulation (the phi itself, the empty start value)
+			}
+			if res != nil && !sameSym(*res, s) {
+				return symv{}, false
+			}
+			res = &s
+		}
+		if res != nil {
+			return *res, true
+		}
+		return symv{}, false
+	case *ssa.Call:
+		if bi, ok := x.Call.Value.(*ssa.Builtin); ok {
+			if bi.Name() != "append" || len(x.Call.Args) != 2 {
+				return symv{}, false
+			}
+			ops := variadicOperands(x.Call.Args[1])
+			if len(ops) != 1 || ops[0] == nil {
+				return symv{}, false
+			}
+			d.appends = append(d.appends, drvAppend{x, e})
+			return d.eval(ops[0], e, depth+1), true
+		}
+		f := x.Call.StaticCallee()
+		if f == nil || f.Blocks == nil || f.Pkg != d.w.Cmd {
+			return symv{}, false
+		}
+		ne := &drvEnv{params: map[*ssa.Parameter]drvBound{}, free: map[*ssa.FreeVar]symv{}, tbl: e.tbl, lit: e.lit}
+		for i, p := range f.Params {
+			if i < len(x.Call.Args) {
+				ne.params[p] = drvBound{x.Call.Args[i], e}
+			}
+		}
+		var res *symv
+		for _, b := range f.Blocks {
+			ret, ok := b.Instrs[len(b.Instrs)-1].(*ssa.Return)
+			if !ok || len(ret.Results) != 1 {
+				continue
+			}
+			if k, isC := ret.Results[0].(*ssa.Const); isC && k.IsNil() {
+				continue
+			}
+			s, ok := d.derivedElem(ret.Results[0], ne, depth+1, seen)
+			if !ok {
+				return symv{}, false
+			}
+			if res != nil && !sameSym(*res, s) {
+				return symv{}, false
+			}
+			res = &s
+		}
+		if res != nil {
+			return *res, true
+		}
+	}
+	return symv{}, false
+}
+
 // globalInit: the map literal a package-level variable is initialised with (stored once, in init).
 func (d *driver) globalInit(g *ssa.Global) ssa.Value {
 	var val ssa.Value
@@ -646,8 +763,18 @@ func (d *driver) evalLitField(f string, e *drvEnv, depth int) symv {
 		}
 		return unknown("field " + f + " not set in the table entry")
 	}
-	// the literal's values live in the function that built the table; that function's own parameters are Compile's (or none)
-	return d.eval(v, &drvEnv{tbl: e.tbl, lit: e.lit}, depth+1)
+	// the literal's values live in the function that built the table: its parameters are Compile's (or none) - or, when the table is
+	// built in a helper that is being evaluated right now, the ones bound for that helper
+	ne := &drvEnv{tbl: e.tbl, lit: e.lit}
+	for p, b := range e.params {
+		if p.Parent() == e.lit.fn {
+			if ne.params == nil {
+				ne.params = map[*ssa.Parameter]drvBound{}
+			}
+			ne.params[p] = b
+		}
+	}
+	return d.eval(v, ne, depth+1)
 }
 
 // evalReturn: the value(s) a function returns, with its parameters bound to the call-site arguments.
@@ -683,6 +810,11 @@ func (d *driver) evalReturn(fn *ssa.Function, args []ssa.Value, callerEnv *drvEn
 			continue
 		}
 		if !sameSym(*result, s) {
+			// `return nil, err` beside `return value, nil`: a nil component yields to what the other path returns
+			if m, ok := mergeSym(*result, s); ok {
+				result = &m
+				continue
+			}
 			return unknown("function returns different values on different paths")
 		}
 	}
@@ -690,6 +822,31 @@ func (d *driver) evalReturn(fn *ssa.Function, args []ssa.Value, callerEnv *drvEn
 		return unknown("function does not return")
 	}
 	return *result
+}
+
+// mergeSym: two return values that differ only where one of them is nil (or, for errors, where one path made a fresh error).
+func mergeSym(a, b symv) (symv, bool) {
+	if sameSym(a, b) {
+		return a, true
+	}
+	if a.Kind == "nil" {
+		return b, true
+	}
+	if b.Kind == "nil" {
+		return a, true
+	}
+	if a.Kind == "tuple" && b.Kind == "tuple" && len(a.Elems) == len(b.Elems) {
+		out := symv{Kind: "tuple"}
+		for i := range a.Elems {
+			m, ok := mergeSym(a.Elems[i], b.Elems[i])
+			if !ok {
+				return symv{}, false
+			}
+			out.Elems = append(out.Elems, m)
+		}
+		return out, true
+	}
+	return symv{}, false
 }
 
 func sameSym(a, b symv) bool {
@@ -1117,6 +1274,9 @@ func (d *driver) delivered(fn *ssa.Function, errV ssa.Value, depth int) bool {
 			continue
 		}
 		for _, rv := range ret.Results {
+			if sameValue(stripIdentity(rv), errV) && fn == d.compile {
+				return true
+			}
 			if sameValue(stripIdentity(rv), errV) && fn != d.compile {
 				all := len(d.sites[fn]) > 0
 				for _, s := range d.sites[fn] {
